@@ -52,6 +52,7 @@ StepOf(e) ==
     [] e.act = "Chunk"        -> Chunk(e.h)
     [] e.act = "Copy"         -> Copy(e.h, e.args[1], e.args[2])
     [] e.act = "Mutate"       -> Mutate(e.h, e.args[1])
+    [] e.act = "EditInput"    -> EditInput(e.h)
     [] e.act = "EditExport"   -> \E x \in exports : x.h = e.h /\ x.fmt = e.args[1] /\ EditExport(x)
     [] e.act = "EditReturned" -> EditReturned(e.h, e.args[1])
 
